@@ -201,7 +201,8 @@ zckRange ZCK_PUBLIC_API *zck_get_missing_range(zckCtx *zck, int max_ranges) {
        return NULL;
     }
     for(zckChunk *chk = zck->index.first; chk; chk = chk->next) {
-        if(chk->valid)
+        /* Nothing to request for valid or empty chunks */
+        if(chk->valid || chk->comp_length == 0)
             continue;
 
         if(!range_add(range, chk, zck)) {
